@@ -1,4 +1,250 @@
 import Cpl.Model.Rules
+import Cpl.Spec.Ring
+import Cpl.Properties.C01
+import Cpl.Lemmas.Reversible
+
+/-!
+# C13 — `ReversibleRule` is second-order and time-reversible
+
+Evolving a ring with `ReversibleRule(prev, R)` realises `s(t+1) = f_R(s(t)) XOR s(t-1)` with
+`s(-1) = prev` and `f_R` the elementary rule `R` in NKS numbering; restarting from the last two states
+with their roles swapped retraces the history backwards exactly.
+
+Property theorems only. The model (`reversibleCall`, `reversibleRule` in `Cpl.Model.Rules`, run by
+`evolveFixed`) mirrors the Python: a per-cell callable with a mutable `_previous_state` array. The
+specification here is written on whole rows (`fR`, `xorRows`, `recur`) and never mentions that array.
+
+The aliasing clause of the property (the constructor keeps a reference to the caller's array) is
+outside this file. The statements need no binary-ness hypothesis: they hold for arbitrary integer
+rows of equal length (Python's `^` on integers is an involution); that binary rows stay binary is
+`recur_binary`.
+-/
+
 namespace Cpl.C13
-theorem placeholder : True := trivial
+open Py Cpl Cpl.Spec Cpl.Reversible
+
+/-! ## specification -/
+
+/-- `f_R`: elementary rule `R` (NKS numbering) applied to every cell of a ring, radius 1. The window
+    `(left, self, right)` read as a binary number `v` selects bit `v` of `R`. -/
+def fR (R : Nat) (row : List Int) : List Int :=
+  (List.range row.length).map fun c =>
+    if R.testBit (bitsToInt (window row 1 c)) then 1 else 0
+
+/-- Cell-wise XOR of two rows. -/
+def xorRows (a b : List Int) : List Int := List.zipWith ixor a b
+
+/-- The second-order recurrence unrolled `k` times from (previous, current): the rows
+    `s(t+1), …, s(t+k)` with `s(t+1) = f_R(s(t)) XOR s(t-1)`. -/
+def recur (R : Nat) : Nat → List Int → List Int → List (List Int)
+  | 0, _, _ => []
+  | k + 1, prev, cur => xorRows (fR R cur) prev :: recur R k cur (xorRows (fR R cur) prev)
+
+/-- The last two states `(s(t+k-1), s(t+k))` of the recurrence after `k` steps from (previous, current);
+    `lastTwo_spec` ties it to `recur`. -/
+def lastTwo (R : Nat) : Nat → List Int → List Int → List Int × List Int
+  | 0, prev, cur => (prev, cur)
+  | k + 1, prev, cur => lastTwo R k cur (xorRows (fR R cur) prev)
+
+/-! ## local glue to the abstract recurrence of `Cpl.Lemmas.Reversible` -/
+
+private theorem fR_length (R : Nat) (l : List Int) : (fR R l).length = l.length := by
+  simp [fR]
+
+private theorem fR_binary (R : Nat) (l : List Int) : ∀ x ∈ fR R l, x = 0 ∨ x = 1 := by
+  intro x hx
+  simp only [fR, List.mem_map] at hx
+  obtain ⟨c, _, rfl⟩ := hx
+  split <;> simp
+
+private theorem recur_eq (R : Nat) : ∀ (k : Nat) (p c : List Int),
+    recur R k p c = rows (fR R) k p c := by
+  intro k
+  induction k with
+  | zero => intro p c; rfl
+  | succ k ih => intro p c; simp only [recur, rows, ih]; rfl
+
+private theorem lastTwo_eq (R : Nat) : ∀ (k : Nat) (p c : List Int),
+    lastTwo R k p c = endPair (fR R) k p c := by
+  intro k
+  induction k with
+  | zero => intro p c; rfl
+  | succ k ih => intro p c; simp only [lastTwo, endPair, ih]; rfl
+
+private theorem run_reversible (R : Nat) (hR : R < 256) :
+    ∀ (k t : Nat) (cells prev : List Int), prev.length = cells.length →
+      run (reversibleRule R) 1 k t cells prev = (recur R k prev cells, (lastTwo R k prev cells).1) := by
+  intro k
+  induction k with
+  | zero => intro t cells prev _; rfl
+  | succ k ih =>
+    intro t cells prev hlen
+    have hstep := step_reversible R hR cells prev t hlen
+    have hn : (xorRows (fR R cells) prev).length = cells.length := by
+      simp [xorRows, fR_length, hlen]
+    simp only [run]
+    rw [hstep]
+    simp only []
+    rw [show (List.zipWith ixor ((List.range cells.length).map fun c =>
+        nksBit R (window cells 1 c)) prev) = xorRows (fR R cells) prev from rfl,
+      ih (t + 1) (xorRows (fR R cells) prev) cells hn.symm]
+    rfl
+
+/-! ## `^` is an involution -/
+
+/-- **Python's integer XOR undoes itself**: `(a ^ b) ^ b = a` for *all* integers (either sign). -/
+theorem ixor_involutive (a b : Int) : ixor (ixor a b) b = a := ixor_cancel_right a b
+
+/-- The same for whole rows of equal length — on either side. -/
+theorem xorRows_involutive (a b : List Int) (h : a.length = b.length) :
+    xorRows (xorRows a b) b = a ∧ xorRows a (xorRows a b) = b :=
+  ⟨zipWith_ixor_cancel_right a b h, zipWith_ixor_cancel_left a b h⟩
+
+/-! ## one step -/
+
+/-- **One synchronous step under `ReversibleRule` is `f_R(s(t)) XOR s(t-1)`.** For every rule number
+    `R < 256`, every ring `cells` and every stored previous state `prev` of the same length (any step
+    number `t`): the new row is `f_R(cells) XOR prev`, and the rule's stored state afterwards is
+    `cells` — every cell's previous state has been replaced by the centre of its window, its current
+    state. Each cell reads its *old* stored value even though cells before it were already overwritten. -/
+theorem reversible_step (R : Nat) (hR : R < 256) (cells prev : List Int) (t : Nat)
+    (hlen : prev.length = cells.length) :
+    step (reversibleRule R) cells 1 t prev = (xorRows (fR R cells) prev, cells) :=
+  step_reversible R hR cells prev t hlen
+
+/-- The new row has as many cells as the ring. -/
+theorem xorRows_fR_length (R : Nat) (cells prev : List Int) (hlen : prev.length = cells.length) :
+    (xorRows (fR R cells) prev).length = cells.length := by
+  simp [xorRows, fR_length, hlen]
+
+/-! ## the evolution is the second-order recurrence -/
+
+/-- `lastTwo` really is the last two entries of the sequence `prev, cur, recur …` (positions `k`, `k+1`). -/
+theorem lastTwo_spec (R k : Nat) (prev cur : List Int) :
+    (prev :: cur :: recur R k prev cur)[k]? = some (lastTwo R k prev cur).1 ∧
+    (prev :: cur :: recur R k prev cur)[k + 1]? = some (lastTwo R k prev cur).2 := by
+  induction k generalizing prev cur with
+  | zero => exact ⟨rfl, rfl⟩
+  | succ k ih =>
+    have := ih cur (xorRows (fR R cur) prev)
+    simp only [recur, lastTwo, List.getElem?_cons_succ]
+    exact this
+
+/-- **`evolve` with `ReversibleRule(prev, R)` computes the second-order recurrence.** For `R < 256`, a ring
+    of `N ≥ 1` cells (`init` = last row of the given history), a stored state `prev` of the same length and
+    `T ≥ 1`: the result is the given history (so it starts with the initial state, unchanged) followed
+    by the `T-1` rows `s(1), …, s(T-1)` of `s(t+1) = f_R(s(t)) XOR s(t-1)`, `s(0) = init`, `s(-1) = prev`;
+    the rule's stored state at the end is the state before the last one (`prev` itself if `T = 1`). -/
+theorem reversible_recurrence (R : Nat) (hR : R < 256) (hist : List (List Int)) (init prev : List Int)
+    (hlast : hist.getLast? = some init) (T : Nat) (hT : 1 ≤ T) (hN : 1 ≤ init.length)
+    (hlen : prev.length = init.length) :
+    evolveFixed hist T (reversibleRule R) 1 .plain prev
+      = .ok (hist ++ recur R (T - 1) prev init, (lastTwo R (T - 1) prev init).1) := by
+  rw [Cpl.C01.evolveFixed_plain_eq_spec hist init hlast T hT (reversibleRule R) 1 (by omega) hN prev,
+    run_reversible R hR (T - 1) 1 init prev hlen]
+
+/-- **Row 0 of the result is the initial state**: started on a one-row history `[init]`, the result is
+    `init` followed by the recurrence rows. -/
+theorem reversible_row0 (R : Nat) (hR : R < 256) (init prev : List Int) (T : Nat) (hT : 1 ≤ T)
+    (hN : 1 ≤ init.length) (hlen : prev.length = init.length) :
+    evolveFixed [init] T (reversibleRule R) 1 .plain prev
+      = .ok (init :: recur R (T - 1) prev init, (lastTwo R (T - 1) prev init).1) :=
+  reversible_recurrence R hR [init] init prev rfl T hT hN hlen
+
+/-- The first new row is `f_R(init) XOR prev` and the second is `f_R(s(1)) XOR init`: the recurrence
+    written out for two steps. -/
+theorem recur_two (R : Nat) (prev init : List Int) :
+    recur R 2 prev init
+      = [xorRows (fR R init) prev, xorRows (fR R (xorRows (fR R init) prev)) init] := rfl
+
+/-- Every row of the recurrence has the ring's length, and there are `k` of them. -/
+theorem recur_shape (R k : Nat) (prev cur : List Int) (hlen : prev.length = cur.length) :
+    (recur R k prev cur).length = k ∧ ∀ row ∈ recur R k prev cur, row.length = cur.length := by
+  induction k generalizing prev cur with
+  | zero => simp [recur]
+  | succ k ih =>
+    have hn := xorRows_fR_length R cur prev hlen
+    have := ih cur (xorRows (fR R cur) prev) hn.symm
+    simp only [recur, List.length_cons, List.mem_cons]
+    refine ⟨by omega, ?_⟩
+    rintro row (rfl | hrow)
+    · exact hn
+    · rw [this.2 row hrow, hn]
+
+/-- **Binary rows stay binary**: from 0/1 rows `prev`, `cur` every row of the recurrence is 0/1. -/
+theorem recur_binary (R k : Nat) (prev cur : List Int) (hp : ∀ x ∈ prev, x = 0 ∨ x = 1)
+    (hc : ∀ x ∈ cur, x = 0 ∨ x = 1) :
+    ∀ row ∈ recur R k prev cur, ∀ x ∈ row, x = 0 ∨ x = 1 := by
+  rw [recur_eq]
+  exact rows_binary (fR_binary R) k prev cur hp hc
+
+/-! ## time reversal -/
+
+/-- **The recurrence retraces its history backwards.** Let the forward recurrence from `(prev, s0)` yield
+    `s1, …, sK`. Started again with current state `s(K-1)` and previous state `sK` (the last two states,
+    roles swapped) it yields `s(K-2), …, s0, prev`: the whole sequence `sK, s(K-1), …, s0, prev` is the
+    forward sequence `prev, s0, …, sK` reversed, and the backward run ends on the pair `(s0, prev)`.
+    Any rule number, any integer rows of equal length. -/
+theorem reversible_retrace (R K : Nat) (prev s0 : List Int) (hlen : prev.length = s0.length) :
+    (lastTwo R K prev s0).2 :: (lastTwo R K prev s0).1
+        :: recur R K (lastTwo R K prev s0).2 (lastTwo R K prev s0).1
+      = (prev :: s0 :: recur R K prev s0).reverse ∧
+    recur R K (lastTwo R K prev s0).2 (lastTwo R K prev s0).1
+      = (prev :: s0 :: recur R K prev s0).reverse.drop 2 ∧
+    lastTwo R K (lastTwo R K prev s0).2 (lastTwo R K prev s0).1 = (s0, prev) := by
+  have h1 := traj_retrace (f := fR R) (fR_length R) K prev s0 hlen
+  have h2 := endPair_retrace (f := fR R) (fR_length R) K prev s0 hlen
+  simp only [traj, ← recur_eq, ← lastTwo_eq] at h1 h2
+  refine ⟨h1, ?_, h2⟩
+  rw [← h1]; rfl
+
+/-- **Time reversal at the level of `evolve`.** Run `K` steps (`T = K+1`) from `s0` with
+    `ReversibleRule(prev, R)`: the rows are `s0, s1, …, sK`, the rule's stored state at the end is `s(K-1)`
+    and the last row is `sK`. Run `K` steps again from the row `s(K-1)` with `ReversibleRule(sK, R)`: the rows
+    `back` of that run, preceded by `sK`, are exactly `prev, s0, …, sK` in reverse order — the second run ends
+    on `prev`, with stored state `s0`. -/
+theorem reversible_retrace_evolve (R : Nat) (hR : R < 256) (K : Nat) (prev s0 : List Int)
+    (hN : 1 ≤ s0.length) (hlen : prev.length = s0.length) :
+    evolveFixed [s0] (K + 1) (reversibleRule R) 1 .plain prev
+      = .ok (s0 :: recur R K prev s0, (lastTwo R K prev s0).1) ∧
+    (s0 :: recur R K prev s0).getLast? = some (lastTwo R K prev s0).2 ∧
+    ∃ back, evolveFixed [(lastTwo R K prev s0).1] (K + 1) (reversibleRule R) 1 .plain
+        (lastTwo R K prev s0).2 = .ok (back, s0) ∧
+      (lastTwo R K prev s0).2 :: back = (prev :: s0 :: recur R K prev s0).reverse := by
+  have hl := endPair_length (f := fR R) (fR_length R) K prev s0 hlen
+  rw [← lastTwo_eq] at hl
+  obtain ⟨hr1, _, hr3⟩ := reversible_retrace R K prev s0 hlen
+  refine ⟨reversible_row0 R hR s0 prev (K + 1) (by omega) hN hlen, ?_, ?_⟩
+  · have := (lastTwo_spec R K prev s0).2
+    rw [List.getElem?_cons_succ] at this
+    rw [List.getLast?_eq_getElem?]
+    simp only [List.length_cons, (recur_shape R K prev s0 hlen).1, Nat.add_sub_cancel]
+    exact this
+  · refine ⟨(lastTwo R K prev s0).1 :: recur R K (lastTwo R K prev s0).2 (lastTwo R K prev s0).1, ?_, hr1⟩
+    have := reversible_row0 R hR (lastTwo R K prev s0).1 (lastTwo R K prev s0).2 (K + 1) (by omega)
+      (by omega) (by omega)
+    rw [this, Nat.add_sub_cancel, hr3]
+
+/-! ## Non-vacuity: rule 90 on a ring of 5 cells, by evaluation of the model -/
+
+/-- Forward: three steps from `s0 = 00100` with `prev = 10000`. -/
+example : evolveFixed [[0, 0, 1, 0, 0]] 4 (reversibleRule 90) 1 .plain [1, 0, 0, 0, 0]
+    = .ok ([[0, 0, 1, 0, 0], [1, 1, 0, 1, 0], [1, 1, 1, 0, 0], [0, 1, 1, 0, 1]], [1, 1, 1, 0, 0]) := by
+  decide
+/-- The specification gives the same rows. -/
+example : recur 90 3 [1, 0, 0, 0, 0] [0, 0, 1, 0, 0]
+    = [[1, 1, 0, 1, 0], [1, 1, 1, 0, 0], [0, 1, 1, 0, 1]] := by decide
+example : lastTwo 90 3 [1, 0, 0, 0, 0] [0, 0, 1, 0, 0] = ([1, 1, 1, 0, 0], [0, 1, 1, 0, 1]) := by decide
+/-- Backward: from the last two rows with their roles swapped the history is retraced and ends on `prev`. -/
+example : evolveFixed [[1, 1, 1, 0, 0]] 4 (reversibleRule 90) 1 .plain [0, 1, 1, 0, 1]
+    = .ok ([[1, 1, 1, 0, 0], [1, 1, 0, 1, 0], [0, 0, 1, 0, 0], [1, 0, 0, 0, 0]], [0, 0, 1, 0, 0]) := by
+  decide
+/-- `f_90` is "left XOR right" on the ring. -/
+example : fR 90 [0, 0, 1, 0, 0] = [0, 1, 0, 1, 0] := by decide
+/-- The hypotheses are satisfiable: `90 < 256`, a ring of 5 cells, rows of equal length. -/
+example : 90 < 256 ∧ 1 ≤ [0, 0, 1, 0, 0].length
+    ∧ [1, 0, 0, 0, 0].length = [0, 0, 1, 0, 0].length := by decide
+/-- XOR of integers of either sign, as in Python: `-3 ^ 5 = -8`, and back. -/
+example : ixor (-3) 5 = -8 ∧ ixor (-8) 5 = -3 := by decide
+
 end Cpl.C13
